@@ -75,6 +75,23 @@ type US3 struct {
 	B   string `struct:" b2 , omitempty "`
 }
 
+// two levels of inlining, neither inlined struct at offset 0, fields after each inlined struct
+type UGeo struct {
+	Lat int64
+	Lon int32 `struct:"lon"`
+}
+type UMid struct {
+	Port uint16
+	Geo  UGeo `struct:",inline"`
+	Tail string `struct:"tail"`
+}
+type US4 struct {
+	ID    int64
+	Count int8
+	Mid   UMid `struct:",inline"`
+	Last  bool
+}
+
 type UBadInline struct {
 	P *UIn `struct:",inline"`
 }
@@ -180,6 +197,9 @@ var menagerie = map[string]reflect.Type{
 	"S1":        reflect.TypeOf(US1{}),
 	"S2":        reflect.TypeOf(US2{}),
 	"S3":        reflect.TypeOf(US3{}),
+	"Geo":       reflect.TypeOf(UGeo{}),
+	"Mid":       reflect.TypeOf(UMid{}),
+	"S4":        reflect.TypeOf(US4{}),
 	"BadInline": reflect.TypeOf(UBadInline{}),
 	"Dup":       reflect.TypeOf(UDup{}),
 	"Arr":       reflect.TypeOf(UArr{}),
